@@ -462,6 +462,38 @@ func boundaryPrev(r *rand.Rand, off int) (int64, string) {
 	return ns, class
 }
 
+var fieldBounds = [7][2]int{{0, 59}, {0, 59}, {0, 23}, {1, 31}, {1, 12}, {1, 7}, {1970, 3940}}
+
+// crossBoundary rewrites one field of a rendered expression so that it mentions a value just outside
+// the field's documented range (hi+1 or lo-1) as a single value, list member, range end or step bound.
+func crossBoundary(r *rand.Rand, ex string) string {
+	toks := strings.Fields(ex)
+	if len(toks) < 6 {
+		return ex
+	}
+	i := r.Intn(len(toks))
+	lo, hi := fieldBounds[i][0], fieldBounds[i][1]
+	st := 1 + r.Intn(3)
+	forms := []string{
+		fmt.Sprint(hi + 1),
+		fmt.Sprintf("%d-%d", lo, hi+1),
+		fmt.Sprintf("%d-%d/%d", hi-2*st, hi+st, st),
+		fmt.Sprintf("%d,%d", lo, hi+1),
+		fmt.Sprintf("%d/%d", hi+1, st),
+		fmt.Sprintf("%d-%d", lo-1, hi),
+		fmt.Sprintf("%d,%d-%d", lo, hi-1, hi+1),
+		fmt.Sprintf("%d-%d/%d", lo, hi+1, hi),
+	}
+	toks[i] = forms[r.Intn(len(forms))]
+	if i == 3 {
+		toks[5] = "?"
+	}
+	if i == 5 {
+		toks[3] = "?"
+	}
+	return strings.Join(toks, " ")
+}
+
 func runFixed(seed int64, from, to int, brute bool) {
 	fmt.Fprintf(out, "Z\tutc\t0\n")
 	seen := map[int]bool{0: true}
@@ -475,6 +507,13 @@ func runFixed(seed int64, from, to int, brute bool) {
 		r := rand.New(rand.NewSource(seed*1000003 + int64(i)))
 		e := genExpr(r, false)
 		ex := e.render(r)
+		mutated := false
+		if r.Intn(8) == 0 {
+			// malformed stream: push one field across its documented bound in some syntactic position;
+			// if the parser accepts it anyway, the trigger is evaluated like any other
+			ex = crossBoundary(r, ex)
+			mutated = true
+		}
 		off := fixedOffsets[r.Intn(len(fixedOffsets))]
 		loc := time.UTC
 		zid := "utc"
@@ -494,7 +533,10 @@ func runFixed(seed int64, from, to int, brute bool) {
 			j++
 			res := fire(tr, prev, fmt.Sprintf("%s\t%s\t%d", ex, loc, prev))
 			oracle := "-"
-			if brute {
+			if mutated {
+				class = "boundary-syntax:" + class
+			}
+			if brute && !mutated {
 				// independent day-by-day search on the wall clock of the location
 				w, ok := bruteNext(e, prev/1000000000+int64(off), 2262)
 				oracle = "E"
